@@ -216,7 +216,10 @@ if __name__ == "__main__":
                 "(* GENERATED: the obligation for %s, in its own file so that make checks the kernels in parallel *)\n"
                 "From AsconV Require Import Obl.KernMaskedDefs Gen.Masked_%s.\n"
                 "Lemma %s_ok : vbackend_ok %s_ifaces %s_entry %s_exit %s_segs %s_chains = true. Proof. vm_compute. reflexivity. Qed.\n"
-                % ((name,) * 8))
+                % ((name,) * 8) +
+                # the entry / exit value programs are the hand-written Obl/MWordSpec.state_val (syntactic check)
+                "Lemma %s_std_ok : vstd_ok MWordSpec.B64 %d %d %s_ifaces %s_entry %s_exit = true. Proof. vm_compute. reflexivity. Qed.\n"
+                % (name, n, MAXS, name, name, name))
             for e in errors:
                 print("MISSING kern_masked %s: %s" % (name, e))
             print("kern_masked %s: %d interfaces, %d segments, %d chains" % (name, len(ifaces), len(segtab), len(chains)))
